@@ -4,7 +4,8 @@ C07 -- bitmap-driven and associated attributes are linked to the element they qu
 Structures (mc.gen.bitmaps): base x chain of operator constructs (222/223/224/225/232 x bitmap
 source direct / delayed / defined-for-reuse / recalled x length N x ALL 2^N bit patterns x
 follower form) with 235000 / 237255 / plain elements between constructs, uncompressed and
-compressed, 1..2 subsets (uncompressed subsets with *different* bitmaps).  Field values are
+compressed, 1..2 subsets (uncompressed subsets with *different* bitmaps); the same structures inside an
+outer replication that runs twice within a subset (each repetition closed by 235000).  Field values are
 explored with the deviation bound (E1).  Per execution:
   - the reference model builds the message; its links (k-th value <-> k-th zero bit <-> N
     elements preceding the operator) are the expectation for bitmap_links_all_subsets;
@@ -53,8 +54,14 @@ def struct_body(struct, env):
     def body(ctx):
         from pybufrkit.renderer import NestedJsonRenderer
         try:
-            b, spec, subs, notes = S.build_struct_message(ctx, descs, queues, free, nsub=nsub, compressed=comp,
-                                                          variant_of_subset=vmap)
+            if env.get('distinct'):
+                # every field value differs from its neighbours and between subsets: an attribute hung on the wrong owner
+                # cannot hide behind equal values
+                b, spec, subs, notes = S.build_distinct_message(ctx, descs, nsub=nsub, compressed=comp, queues=queues,
+                                                                free=free, variant_of_subset=vmap)
+            else:
+                b, spec, subs, notes = S.build_struct_message(ctx, descs, queues, free, nsub=nsub, compressed=comp,
+                                                              variant_of_subset=vmap)
         except codec.RefError as e:
             return {'outcome': ('ref-error',), 'skip': 'ref:' + str(e)[:60]}
         if notes:
@@ -158,6 +165,12 @@ def plan(tier):
         ('chain2-u1', list(BM.chain2(L)), dict(nsub=1, compressed=False), 0),
         ('chain2-c2', list(BM.chain2(L)), dict(nsub=2, compressed=True), 0),
     ]
+    out.append(('chain1-u1-distinct', list(BM.chain1(L + 1)), dict(nsub=1, compressed=False, distinct=True), 0))
+    out.append(('chain1-u2-diff-distinct', list(BM.chain1(1, 2)), dict(nsub=2, compressed=False, vmap=[0, 1], distinct=True), 0))
+    out.append(('chain2-c2-distinct', list(BM.chain2(L)), dict(nsub=2, compressed=True, distinct=True), 0))
+    w = list(BM.wrapped(BM.chain1(L), 2, True)) + list(BM.wrapped(BM.chain1(0), 2, True, delayed=True))
+    out.append(('wrapped-u1', w, dict(nsub=1, compressed=False, distinct=True), 0))
+    out.append(('wrapped-c2', w if tier == 'thorough' else w[::3], dict(nsub=2, compressed=True), 0))
     if tier == 'thorough':
         out.append(('chain1-all-u1', list(BM.chain1(2)), dict(nsub=1, compressed=False), 2))
         out.append(('chain1-u3-diff', list(BM.chain1(0, 3)), dict(nsub=3, compressed=False, vmap=[0, 1, 2]), 0))
